@@ -219,6 +219,64 @@ pub fn closure(spec: &AppSpec, inputs: &[(usize, Mode)]) -> Vec<usize> {
     seen
 }
 
+/// Upper bound on how many times the constructor of transient `t` may run while one request to
+/// `route` is served: the number of its injection sites in everything that can run for that route
+/// (middleware chain, handler, observers, any error handler, and the constructors those need; a site
+/// inside the constructor of another transient counts once per site of that transient). The compiler
+/// builds the inputs of error handlers / observers that do not depend on the error *before* the
+/// fallible call, so a site need not be reached for its value to be built; but a value is never
+/// built more often than there are sites.
+pub fn transient_site_bound(spec: &AppSpec, route: &RouteInfo, t: usize) -> usize {
+    // components that run on the happy path, with multiplicity (a middleware may be registered twice)
+    let mut happy: Vec<usize> = route.chain.clone();
+    happy.push(route.handler);
+    // every fallible call site gets its own copy of the error branch (error handler + observers)
+    let mut fallible_sites = happy.iter().filter(|c| spec.comps[**c].fallible.is_some()).count();
+    let mut all_inputs: Vec<(usize, Mode)> = happy.iter().flat_map(|c| spec.comps[*c].inputs.clone()).collect();
+    for (i, c) in spec.comps.iter().enumerate() {
+        if matches!(c.kind, CompKind::ErrHandler { .. }) || route.observers.contains(&i) {
+            all_inputs.extend(c.inputs.clone());
+        }
+    }
+    for u in closure(spec, &all_inputs) {
+        if spec.types[u].any_variant_fallible() && spec.types[u].life != Life::Singleton {
+            // (a fallible transient may be built at several sites; 4 is a generous cap per type)
+            fallible_sites += if spec.types[u].life == Life::Transient { 4 } else { 1 };
+        }
+    }
+    let branches = fallible_sites.max(1);
+    let mut error_path: Vec<usize> = route.observers.clone();
+    for (i, c) in spec.comps.iter().enumerate() {
+        if matches!(c.kind, CompKind::ErrHandler { .. }) {
+            error_path.push(i);
+        }
+    }
+    // (component, how many times it may run / have its inputs prepared)
+    let mut runs: Vec<(usize, usize)> = happy.iter().map(|c| (*c, 1)).collect();
+    runs.extend(error_path.iter().map(|c| (*c, branches)));
+    fn sites(spec: &AppSpec, runs: &[(usize, usize)], t: usize, depth: usize) -> usize {
+        if depth > 8 {
+            return 1 << 12;
+        }
+        let mut n: usize = runs.iter().filter(|(c, _)| spec.comps[*c].inputs.iter().any(|(x, _)| *x == t)).map(|(_, m)| *m).sum();
+        // generic wrappers instantiated with `t` take `&t`
+        n += runs.iter().map(|(c, m)| spec.comps[*c].gens.iter().filter(|(_, inner)| *inner == t).count() * m).sum::<usize>();
+        for (u, us) in spec.types.iter().enumerate() {
+            if u == t || !us.inputs.iter().any(|(x, _)| *x == t) {
+                continue;
+            }
+            let needed = runs.iter().any(|(c, _)| closure(spec, &spec.comps[*c].inputs).contains(&u) || spec.comps[*c].gens.iter().any(|(_, inner)| *inner == u));
+            if !needed {
+                continue;
+            }
+            let per_variant = us.variants.max(1) as usize;
+            n += per_variant * if us.life == Life::Transient { sites(spec, runs, u, depth + 1).max(1) } else { 1 };
+        }
+        n
+    }
+    sites(spec, &runs, t, 0)
+}
+
 /// Known-finding shape (C04): in the blueprint that designates the constructor of `ty`, the
 /// designated *fallible* variant is registered, then another *infallible* variant, then the fallible
 /// one again ("A, B, A"): the latest registration is A, but the compiler keeps B (the `Ok`-matcher of
